@@ -243,12 +243,12 @@ class ExcFlow:
             return out or {"Exception"}
         # raising a local variable: a class looked up in a module-level table of exception classes
         # (`if exc := TABLE.get(code): raise exc(stage)`), else an unknown Exception subclass (a stored exception)
-        if isinstance(e, ast.Name) and e.id[:1].islower():
+        if isinstance(e, ast.Name) and not e.id[:1].isupper():
             tc = self._table_classes(f, e.id)
             return tc if tc else {"Exception"}
         return {r}
 
-    def _table_classes(self, f, name: str) -> set[str]:
+    def _table_classes(self, f, name: str, _depth: int = 0) -> set[str]:
         from .loader import walk_own as _walk_own
 
         vals = []
@@ -289,6 +289,36 @@ class ExcFlow:
             return out
         if not vals:
             return out
+        for v in list(vals):
+            # an instance built in place (`err = SomeError("..")` - the result of an inlined error factory)
+            if isinstance(v, ast.Call):
+                dd = dotted(v.func)
+                rr = self.prog.resolve_dotted(f.module, dd) if dd else None
+                rr = EXC_ALIASES.get(rr, rr) if rr else None
+                if rr and (rr in self.prog.classes or self.prog.known_class(rr)) and not (isinstance(v.func, ast.Attribute) and v.func.attr == "get"):
+                    out.add(rr)
+                    vals.remove(v)
+                    continue
+            if isinstance(v, ast.Constant) and v.value is None:
+                vals.remove(v)  # the initial `result = None` of an inlined helper
+                continue
+            # a plain name: a class itself, or another local that holds one (`cls = candidate` inside a spelled-out table loop)
+            if isinstance(v, (ast.Name, ast.Attribute)):
+                dd = dotted(v)
+                rr = self.prog.resolve_dotted(f.module, dd) if dd else None
+                rr = EXC_ALIASES.get(rr, rr) if rr else None
+                if rr and (rr in self.prog.classes or self.prog.known_class(rr)):
+                    out.add(rr)
+                    vals.remove(v)
+                    continue
+                if isinstance(v, ast.Name) and v.id != name and _depth < 4:
+                    sub = self._table_classes(f, v.id, _depth + 1)
+                    if not sub:
+                        return set()
+                    out |= sub
+                    vals.remove(v)
+                    continue
+                return set()
         for v in vals:
             tab = None
             if isinstance(v, ast.Call) and isinstance(v.func, ast.Attribute) and v.func.attr == "get" and len(v.args) == 1:
